@@ -66,7 +66,7 @@ func (Engine) Run(t *tape.Tape, o eng.Opts) *eng.Result {
 	if sw.Intn(4) == 1 {
 		p.CancelPm, p.DeadlinePm = 400, 300
 	}
-	cfg := sched.Config{Sched: t.Stream("sched"), Time: t.Stream("time"), MaxSteps: 5000}
+	cfg := sched.Config{Sched: t.Stream("sched"), Time: t.Stream("time"), MaxSteps: world.StepCap(5000)}
 	switch sw.Weighted(2, 3, 3, 2) {
 	case 0:
 		cfg.Policy = sched.PolRunToCompletion
